@@ -1557,8 +1557,9 @@ func buildTypeInits(projected, att *expr.AttributeExpr, viewspkg string, scope, 
 						AttributeExpr: &expr.AttributeExpr{Type: typ},
 						TypeName:      scope.GoTypeName(projected),
 					},
-					Views:      prt.Views,
-					Identifier: prt.Identifier,
+					// No identifier: this view specific variant of the type must not
+					// be taken for the type itself where the type occurs again below it.
+					Views: prt.Views,
 				},
 			}
 
@@ -1640,8 +1641,9 @@ func buildProjections(projected, att *expr.AttributeExpr, viewspkg string, scope
 					AttributeExpr: &expr.AttributeExpr{Type: typ},
 					TypeName:      projected.Type.Name(),
 				},
-				Views:      rt.Views,
-				Identifier: rt.Identifier,
+				// No identifier: this view specific variant of the type must not be
+				// taken for the type itself where the type occurs again below it.
+				Views: rt.Views,
 			},
 		}
 
@@ -1812,14 +1814,22 @@ func buildConstructorCode(src, tgt *expr.AttributeExpr, sourceVar, targetVar str
 	// service type to projected type (or vice versa)
 	targetRTs := &expr.Object{}
 	tatt := expr.DupAtt(tgt)
-	tobj := expr.AsObject(tatt.Type)
-	// Walk a copy of the attribute list: Delete shifts tobj in place, which would
-	// make the loop skip the attribute that follows a result type attribute.
-	for _, nat := range append(expr.Object{}, *tobj...) {
+	// The result type attributes are initialized separately. Leave them out of a
+	// variant of the target that has no identifier rather than deleting them from
+	// the target itself: the target may occur again below itself (through an
+	// array, a map or a user type) and those occurrences need all attributes.
+	plain := &expr.Object{}
+	for _, nat := range *expr.AsObject(tatt.Type) {
 		if _, ok := nat.Attribute.Type.(*expr.ResultTypeExpr); ok {
 			targetRTs.Set(nat.Name, nat.Attribute)
-			tobj.Delete(nat.Name)
+		} else {
+			plain.Set(nat.Name, nat.Attribute)
 		}
+	}
+	if ut, ok := tatt.Type.(expr.UserType); ok {
+		att := *ut.Attribute()
+		att.Type = plain
+		tatt.Type = &expr.ResultTypeExpr{UserTypeExpr: &expr.UserTypeExpr{AttributeExpr: &att, TypeName: ut.Name()}}
 	}
 	data["Source"] = sourceVar
 	data["Target"] = targetVar
